@@ -100,10 +100,11 @@ def check_output(sc, out, cfg_, lat, flds, axes, pos, fields, big=False):
                     hv, tv = C[which][bi][j], float(fun(arr))
                     if not (abs(hv - tv) <= 2e-16 * abs(tv) or hv == tv):
                         return "level %d box %d: %s[%r] = %r, extremum of the written data %r" % (l, bi, which, name, hv, tv)
-                if big and bi > 1:
-                    continue
-                for ix in range(shape2[0]):
-                    for iy in range(shape2[1]):
+                # wide slices: a lattice of sample pixels (first, last and every k-th) of EVERY box
+                xs = range(shape2[0]) if not big else sorted(set(list(range(0, shape2[0], max(1, shape2[0] // 6))) + [shape2[0] - 1]))
+                ys = range(shape2[1]) if not big else sorted(set(list(range(0, shape2[1], max(1, shape2[1] // 6))) + [shape2[1] - 1]))
+                for ix in xs:
+                    for iy in ys:
                         p3 = [0, 0, 0]
                         p3[cx], p3[cy] = idx[0][0] + ix, idx[0][1] + iy
                         tp = p3[aA] // lat.scale2
@@ -136,9 +137,12 @@ def check_output(sc, out, cfg_, lat, flds, axes, pos, fields, big=False):
     return None
 
 
-def run_scenario(chk, sc, cfgseed, axes, serial, fields):
+WIDE = dict(ext0=448, scale=(1, 48))     # in-plane extent that puts a level's plane data above the 1 MB file-splitting threshold
+
+
+def run_scenario(chk, sc, cfgseed, axes, serial, fields, wide=False):
     from amr_kitchen.mandoline import Mandoline
-    d, cfg_, lat, flds = c07.build(chk, sc, cfgseed, axes)
+    d, cfg_, lat, flds = c07.build(chk, sc, cfgseed, axes, **(WIDE if wide else {}))
     cn = axes[0]
     pos = c07.phys_pos(cfg_, lat, sc, cn)
     before = alpha.tree_digest(d)
@@ -151,7 +155,14 @@ def run_scenario(chk, sc, cfgseed, axes, serial, fields):
         return "slice(fformat='plotfile') raised %s: %s" % (type(e).__name__, str(e)[:200])
     if alpha.tree_digest(d) != before:
         return "the input plotfile was modified"
-    return check_output(sc, out, cfg_, lat, flds, axes, pos, fields)
+    v = check_output(sc, out, cfg_, lat, flds, axes, pos, fields, big=wide)
+    if wide and v is None:
+        nfiles = [len([f for f in os.listdir(os.path.join(out, "Level_%d" % l)) if f != "Cell_H"]) for l in range(sc["lim"] + 1)]
+        if max(nfiles) < 2:
+            raise core.MachineryError("the wide slice was not split over several binary files (%r)" % nfiles)
+    import shutil
+    shutil.rmtree(os.path.dirname(d), ignore_errors=True)
+    return v
 
 
 def big_scenario(chk, seed):
@@ -212,7 +223,7 @@ def run(chk, replay):
                        "tolerance 1e-9 relative to the samples involved"]
     if replay:
         s = replay["scenario"]
-        v = run_scenario(chk, s["sc"], s["cfgseed"], tuple(s["axes"]), s["serial"], s["fields"])
+        v = run_scenario(chk, s["sc"], s["cfgseed"], tuple(s["axes"]), s["serial"], s["fields"], s.get("wide", False))
         chk.executed("replay")
         if v:
             chk.violation(s["sigs"], v, s)
@@ -244,6 +255,17 @@ def run(chk, replay):
         chk.traces += 1
         if v:
             chk.violation(sigs, v, {"sc": sc, "cfgseed": cfgseed, "axes": axes, "serial": serial, "fields": fields, "sigs": sigs})
+    # the same scenarios with in-plane extents that make mandoline split a level over several binary files (1 MB rule)
+    multi = [sc for sc in chosen if sc["sig"][0] >= 2 and sc["lim"] >= 1]
+    chk.rng.shuffle(multi)
+    for i, sc in enumerate(multi[:4 if chk.tier == "quick" else 24]):
+        axes, cfgseed = perms[i % 6], chk.rng.randrange(1 << 30)
+        v = run_scenario(chk, sc, cfgseed, axes, i % 2 == 0, ["all"], wide=True)
+        sigs = util.sig_str(sc["sig"], axes, "wide")
+        chk.executed(sigs, True)
+        chk.traces += 1
+        if v:
+            chk.violation(sigs, v, {"sc": sc, "cfgseed": cfgseed, "axes": axes, "serial": i % 2 == 0, "fields": ["all"], "sigs": sigs, "wide": True})
     v, info = big_scenario(chk, chk.seed + 5)
     chk.executed("big-slice-above-1MB")
     chk.traces += 1
